@@ -62,6 +62,33 @@ fn div(a: Complex<f64>, b: Complex<f64>) -> Complex<f64> {
     }
 }
 
+/// asinh(z): num_complex's ln(z + sqrt(z^2 + 1)) is 0 for |z| < 1e-17, cancels for Re z < 0 (asinh(-1000000)
+/// is off by 5e-7) and overflows for |z| > 1e154; asinh is odd
+fn asinh(z: Complex<f64>) -> Complex<f64> {
+    if z.re < 0.0 {
+        return -asinh(-z);
+    }
+    let n = z.norm();
+    if n < 1e-4 {
+        let z2 = z * z;
+        z * (1.0 - z2 / 6.0 + z2 * z2 * (3.0 / 40.0))
+    } else if n > 1e150 {
+        z.ln() + std::f64::consts::LN_2
+    } else {
+        z.asinh()
+    }
+}
+
+/// atanh(z): num_complex's (ln(1 + z) - ln(1 - z)) / 2 is 0 for |z| < 1e-17
+fn atanh(z: Complex<f64>) -> Complex<f64> {
+    if z.norm() < 1e-4 {
+        let z2 = z * z;
+        z * (1.0 + z2 / 3.0 + z2 * z2 / 5.0)
+    } else {
+        z.atanh()
+    }
+}
+
 pub fn eval(expr: Node) -> Result<Complex<f64>, Box<dyn error::Error>> {
     #[cfg(feature = "verif_hooks")]
     crate::verif_hooks::tick(crate::verif_hooks::Point::EvalEntry);
@@ -85,12 +112,22 @@ pub fn eval(expr: Node) -> Result<Complex<f64>, Box<dyn error::Error>> {
         Sinh(sub_expr) => Ok(eval(*sub_expr)?.sinh()),
         Cosh(sub_expr) => Ok(eval(*sub_expr)?.cosh()),
         Tanh(sub_expr) => Ok(tanh(eval(*sub_expr)?)),
-        Asin(sub_expr) => Ok(eval(*sub_expr)?.asin()),
+        // asin(z) = -i asinh(iz) and atan(z) = -i atanh(iz): num_complex's own formulas return 0 for a tiny
+        // imaginary argument and overflow in z^2 for a huge one
+        Asin(sub_expr) => {
+            let z = eval(*sub_expr)?;
+            let w = asinh(Complex::new(-z.im, z.re));
+            Ok(Complex::new(w.im, -w.re))
+        }
         Acos(sub_expr) => Ok(eval(*sub_expr)?.acos()),
-        Atan(sub_expr) => Ok(eval(*sub_expr)?.atan()),
-        Arsinh(sub_expr) => Ok(eval(*sub_expr)?.asinh()),
+        Atan(sub_expr) => {
+            let z = eval(*sub_expr)?;
+            let w = atanh(Complex::new(-z.im, z.re));
+            Ok(Complex::new(w.im, -w.re))
+        }
+        Arsinh(sub_expr) => Ok(asinh(eval(*sub_expr)?)),
         Arcosh(sub_expr) => Ok(eval(*sub_expr)?.acosh()),
-        Artanh(sub_expr) => Ok(eval(*sub_expr)?.atanh()),
+        Artanh(sub_expr) => Ok(atanh(eval(*sub_expr)?)),
         Sqrt(sub_expr) => Ok(eval(*sub_expr)?.sqrt()),
         Ln(sub_expr) => Ok(eval(*sub_expr)?.ln()),
         Lb(sub_expr) => Ok(eval(*sub_expr)?.log(2.0)),
